@@ -1491,6 +1491,26 @@ def GENSW(ctx):
             line = "gen find_vertices i%d %s bF" % (kk, table)
             out = ctx.corr(line)
             ctx.case(line, out.startswith("ok"), "gen:find_vertices")
+        # remove_nasty_arc: consistent and inconsistent views, graphs whose scores are all zero, every flag combination
+        if rng.random() < 0.5:
+            kk = rng.choice([1, 2, 2, 3])
+            g2 = rng.choice([gen.rand_arc_subset, gen.rand_profile_graph])(rng, kk)
+            if rng.random() < 0.2:
+                g2 = gen.Graph(kk, [rng.choice([0, 1, 2, 4, 8]) for _ in range(4 ** kk)])
+            lm2 = {u: [succ(u, j, kk) for j in g2.live(u)] for u in g2.vertices()}
+            c2 = rng.random()
+            if c2 < 0.1 and lm2:
+                u = rng.choice(list(lm2))
+                lm2[u] = lm2[u][:-1] or [0]
+            elif c2 < 0.2 and lm2:
+                del lm2[rng.choice(list(lm2))]
+            elif c2 < 0.25:
+                lm2[rng.randrange(4 ** kk)] = [rng.randrange(4 ** kk)]
+            line = "gen remove_nasty_arc %s %s i%d %s %s %s" % (_wire_acc(g2.rows()), proto.pv_enc(lm2), rng.choice([0, 2]),
+                                                               rng.choice(["bT", "bF"]), rng.choice(["bT", "bF"]),
+                                                               rng.choice(["bF", "bF", "bT"]))
+            out = ctx.corr(line)
+            ctx.case(line, out.startswith("ok"), "gen:remove_nasty_arc")
         if len(w) >= 1:
             occ = rng.randrange(len(w))
             line = "gen path_matching s%s %s i%d i%d %s n" % (w[:2 * k + 1], _wire_acc(rows), rng.choice([v, rng.randrange(g.n), -1]),
